@@ -28,6 +28,18 @@ def gen(seed):
     spec = _ws.gen_ws(seed, ID, BIAS)
     if seed % 9 == 1:
         _ws.add_binary_stdout_in_resumed_layers(spec, seed)
+    if seed % 11 == 5 and not spec['opt'].get('j'):
+        # ^C while a layer is half run (in the parent): either the run ends with the exception
+        # and claims nothing, or what it prints is what happened
+        import random
+        from .. import common as C
+        srng = random.Random(seed ^ 0xCB1)
+        disc = [d for d in W.Model(spec['world']).discover() if C.test_phases(d)]
+        if disc:
+            d = srng.choice(disc)
+            spec['plan'].append(C.fault_entry(d, srng.choice(C.test_phases(d)),
+                                              {'a': 'raise', 'exc': 'KeyboardInterrupt',
+                                               'where': 'parent'}))
     return spec
 
 
